@@ -23,6 +23,7 @@ type Job struct {
 	C05      *C05Cfg `json:"c05,omitempty"`
 	C18      *C18Cfg `json:"c18,omitempty"`
 	C03      *C03Cfg `json:"c03,omitempty"`
+	C14      *C14Cfg `json:"c14,omitempty"`
 	CodecSig string  `json:"codec_sig,omitempty"` // harness "codec": the violation signature to re-check
 	Mode     string  `json:"mode"`                // explore | split | replay
 	B        Bounds  `json:"bounds"`
@@ -98,10 +99,12 @@ func runOnce(job *Job, ch vs.Chooser, trace bool) (*vs.Result, *Outcome) {
 		out, res = runC10(job.C10, cc, trace)
 	case "C05mon":
 		out, res = runC05(job.C05, cc, trace)
-	case "C18atom":
+	case "C18atom", "C13conc":
 		out, res = runC18(job.C18, cc, trace)
 	case "C03conc":
 		out, res = c03Run(job.C03, cc, trace)
+	case "C14conc":
+		out, res = c14Run(job.C14, cc, trace)
 	default:
 		return &vs.Result{Fatal: "unknown harness " + job.Harness}, nil
 	}
@@ -155,6 +158,8 @@ func (job *Job) cfgString() string {
 		return job.C18.String()
 	case job.C03 != nil:
 		return job.C03.String()
+	case job.C14 != nil:
+		return job.C14.String()
 	case job.Harness == "codec":
 		return "codec product space (Wire.Write -> Wire.Read), part producing " + job.CodecSig
 	}
